@@ -8,7 +8,7 @@ def random_tls_flow(rng, idx=0, ep=None, nmax=12, big=False, segkinds=("mss", "r
                     min_records=0, perturb=False):
     mx = suites.matrix()
     if version is None:
-        v, c, name, p = mx[rng.randrange(len(mx))]
+        v, c, name, p = suites.pick(rng)
     else:
         v, c = version, code
     spec, cl = tlssynth.random_spec(rng, v, c, nmax=nmax, big=big)
